@@ -11,6 +11,9 @@ Streams
   entry.calls    exhaustive product  model class x term program x entry point x data argument x corruption x fitted?
                  with sampled positions: exception class of the real call vs `outcome` of the Lean model, and vs the
                  property text (independent oracle `allowed`)
+  entry.shared_column  every class x term programs in which a factor term shares its column with numerical terms placed
+                 before / after it (linear, spline, tensor marginal) or coexists with other factor terms: every post-fit
+                 entry point x out-of-range level of every factor column -> ValueError (property text); valid -> accepted
   hostile.fits   fits on valid but hostile data must end in {ValueError family, finite coef_ and finite predictions}
   initial.adjust boundary targets: model says link(adjust(y)) is finite => the real fit does not trip its assertion
 """
@@ -1019,6 +1022,148 @@ def _jsonable(v):
 
 
 # --------------------------------------------------------------------------------------------
+# stream 2b: a factor term that shares its column with other terms / several factor terms
+# --------------------------------------------------------------------------------------------
+def shared_programs():
+    """name -> (builder, width, {categorical column: index of its factor term}).  Every program is a valid
+    specification in which a coded column is used by a factor term AND by a numerical term (linear trend, spline,
+    tensor marginal) placed before or after it, or in which several factor terms coexist: "a categorical feature
+    outside the fitted range" is a statement about the factor term, whatever else reads the column."""
+    from pygam.terms import s, f, l, te
+    return {
+        's(0)+l(1)+f(1)': (lambda: s(0, n_splines=6) + l(1) + f(1), 2, {1: 2}),
+        'l(1)+f(1)+s(0)': (lambda: l(1) + f(1) + s(0, n_splines=6), 2, {1: 1}),
+        's(1)+f(1)+l(0)': (lambda: s(1, n_splines=5) + f(1) + l(0), 2, {1: 1}),
+        'te(0,1)+f(1)': (lambda: te(0, 1, n_splines=4) + f(1), 2, {1: 1}),
+        'te(1,0)+l(0)+f(1)': (lambda: te(1, 0, n_splines=4) + l(0) + f(1), 2, {1: 2}),
+        'f(1)+l(1)+s(0)': (lambda: f(1) + l(1) + s(0, n_splines=6), 2, {1: 0}),          # control: factor first
+        'f(0)+l(2)+f(2)+s(1)': (lambda: f(0) + l(2) + f(2) + s(1, n_splines=6), 3, {0: 0, 2: 2}),
+        'l(0)+f(0)+s(1)+f(2)': (lambda: l(0) + f(0) + s(1, n_splines=6) + f(2), 3, {0: 1, 2: 3}),
+    }
+
+
+def shared_data(rng, n, width, levels, ykind):
+    X, y, w, e = gen_data(rng, n, width, [], ykind)
+    for c, K in levels.items():
+        col = [float(i % K) for i in range(n)]
+        rng.shuffle(col)
+        for i in range(n):
+            X[i][c] = col[i]
+    return X, y, w, e
+
+
+_SHARED = None
+
+
+def _shared_worker(key):
+    """fit one class x program and run every post-fit entry point on valid and on out-of-range factor levels"""
+    ctx_like, cfgs, progs = _SHARED
+    cname, pname = key
+    cfg, (mk, width, cats) = cfgs[cname], progs[pname]
+    out = dict(key=key, rows=[], train=None, levels=None, errors=[])
+    gam = None
+    for t in range(10):
+        rng = common.Ctx.subrng(ctx_like, 'shared', cname, pname, 'train', t)
+        levels = {c: rng.choice([3, 4, 5]) for c in sorted(cats)}
+        Xtr, ytr, _, _ = shared_data(rng, 60, width, levels, cfg.ykind)
+        try:
+            with quiet():
+                g = cfg.mk(mk()).fit(np.array(Xtr, dtype=float), np.array(ytr, dtype=float))
+            if np.isfinite(g.coef_).all():
+                gam = g
+                break
+            out['errors'].append('non-finite coef_')
+        except Exception as e:  # noqa
+            out['errors'].append('%s: %s' % (type(e).__name__, str(e)[:100]))
+    if gam is None:
+        return out
+    out['train'], out['levels'] = (Xtr, ytr), levels
+    n = 10
+    for entry, args in entries_for(cfg).items():
+        if entry in REFIT:
+            continue
+        r = common.Ctx.subrng(ctx_like, 'shared', cname, pname, entry)
+        Xc, yc, wc, _ = shared_data(r, n, width, levels, cfg.ykind)
+        base = dict(X=Xc, y=yc if 'y' in args else None, weights=wc if ('weights' in args and r.random() < 0.5) else None,
+                    exposure=None, sample_at_X=None)
+        if entry == 'sample':
+            base['quantity'] = 'mu'
+        todo = [(None, 'valid', None, None, dict(base))]
+        for c, K in sorted(levels.items()):
+            lo, hi = -0.5, K - 0.5
+            for val in (float(K), float(K + r.randint(1, 4)), -1.0, float(-r.randint(2, 5)), float(np.nextafter(hi, INF)),
+                        float(np.nextafter(lo, -INF))):
+                for arg in [a for a in args if a in ('X', 'sample_at_X')]:
+                    A = dict(base)
+                    if arg == 'sample_at_X':
+                        A['sample_at_X'] = [list(x) for x in Xc[:6]]
+                    M = [list(x) for x in A[arg]]
+                    p = r.choice([0, len(M) // 2, len(M) - 1, r.randrange(len(M))])
+                    M[p][c] = val
+                    A[arg] = M
+                    if entry == 'partial_dependence':
+                        A['term'] = cats[c]   # the factor term of that column (other terms need not look at it)
+                    todo.append((arg, 'cat_out', c, val, A))
+        for (arg, kind, c, val, A) in todo:
+            cont = r.choice(['nd', 'nd', 'list'])
+            np.random.seed(_stable_seed((cname, pname, entry, arg, kind, c, val)))
+            try:
+                with quiet():
+                    do_call(gam, entry, A, cont, arg)
+                cls, msg = 'ok', ''
+            except Exception as e:  # noqa
+                cls, msg = exc_class(e), str(e)[:160]
+            out['rows'].append(dict(entry=entry, arg=arg, kind=kind, col=c, val=val, A=A, cont=cont, impl=cls, message=msg))
+    return out
+
+
+def run_shared(ctx, only=None):
+    pygam = common.import_pygam()
+    st = 'entry.shared_column'
+    ctx.stream(st, 'fitted models whose factor term shares its column with numerical terms (before / after it) or with other factor terms: '
+                   'every post-fit entry point x out-of-range level of every factor column -> ValueError; valid levels -> accepted')
+    cfgs = {c.name: c for c in make_configs(pygam)}
+    progs = shared_programs()
+    keys = [(cn, pn) for cn in cfgs for pn in progs]
+    if only is not None:
+        keys = [k for k in keys if list(k) == list(only)]
+
+    class _C:
+        pass
+    o = _C()
+    o.pid, o.seed = ctx.pid, ctx.seed
+    global _SHARED
+    _SHARED = (o, cfgs, progs)
+    reported = 0
+    t0 = time.time()
+    results = _pmap(_shared_worker, keys, serial=(len(keys) < 4))
+    ctx.extra['shared_exec_s'] = round(time.time() - t0, 2)
+    for res in results:
+        cname, pname = res['key']
+        if res['train'] is None:
+            # no clean training set could be fitted: nothing is asserted for this class x program (visible in the counters)
+            ctx.count('shared_column: class x program without a fittable training set', '%s/%s' % (cname, pname))
+            continue
+        for row in res['rows']:
+            sig = dict(cls=cname, terms=pname, entry=row['entry'], arg=row['arg'], kind=row['kind'], col=row['col'], val=repr(row['val']))
+            ctx.case(st, sig, nontrivial=(row['kind'] != 'valid'), sample=dict(sig, impl=row['impl']))
+            ctx.count('shared_column outcome', '%s/%s' % (row['kind'], row['impl']))
+            ok_set = {'ok'} if row['kind'] == 'valid' else {'ValueError'}
+            if row['impl'] in ok_set:
+                continue
+            if reported >= 12:
+                ctx.count('shared_column further failing cases (not listed)', '%s/%s' % (cname, pname))
+                continue
+            reported += 1
+            ctx.fail(st, sig, dict(sig, shared_key=[cname, pname], fitted_levels={str(c): [0, K - 1] for c, K in res['levels'].items()},
+                                   container=row['cont'], args={k: _jsonable(v) for k, v in row['A'].items()}, message=row['message'],
+                                   train=dict(X=res['train'][0], y=res['train'][1])),
+                     observed=dict(outcome=row['impl'], message=row['message']), expected=sorted(ok_set),
+                     oracle=('property text: a categorical feature outside the fitted range -> ValueError from every method that accepts X'
+                             if row['kind'] != 'valid' else 'valid data drawn from the fitted levels are accepted by a fitted model'))
+
+
+# --------------------------------------------------------------------------------------------
 # stream 3: hostile but valid fits
 # --------------------------------------------------------------------------------------------
 def hostile_cases(ctx, cfgs):
@@ -1260,6 +1405,7 @@ def run(ctx):
     run_utils(ctx)
     run_signatures(ctx)
     run_entries(ctx)
+    run_shared(ctx)
     run_hostile(ctx)
     run_adjust(ctx)
 
@@ -1270,5 +1416,7 @@ def replay(ctx, rp):
         run_hostile(ctx, only=case['replay_key'])
     elif rp.get('stream') == 'entry.calls' and 'key' in case:
         run_entries(ctx, only=case['key'])
+    elif rp.get('stream') == 'entry.shared_column' and 'shared_key' in case:
+        run_shared(ctx, only=case['shared_key'])
     else:
         run(ctx)
